@@ -27,7 +27,9 @@ EXPLANATION = (
     "R12.3 every construct that builds a VariableDeclaration is reachable by the traversal and resolves to the declaration "
     "handler. R12.4 lowering resolves names through one per-function map built freshly per function and the VM addresses locals "
     "by name in one flat map (sound because of R12.1-3); the pass gates compilation. R12.5 every typing scope pushed is popped "
-    "on all paths and declarations register in the innermost scope."
+    "on all paths and declarations register in the innermost scope. R12.1 also: names enter the typing scope and lowering's "
+    "table of globals only from the node being visited / the module's own declarations. R12.4 also: the validator looks at "
+    "everything (no early exit before its traversal, = R13.5; every statement of a block reaches the tree, = R11.6)."
 )
 NOT_DECIDED = "run-time binding of every use on every program (follows from the clauses; not separately executed)"
 ASSUMPTIONS = ["uniqueness of visible names is what makes the VM's flat per-activation name map sound"]
